@@ -204,7 +204,7 @@ class HistGen:
         self.rng = rng
         self.g = c08.Gen(rng)
         self.g.token = 1000
-        self.exhaustive = exhaustive      # iterator of (phase, kind, bytes, base) for the systematic sweep, or None
+        self.exhaustive = exhaustive      # {'fresh': [...], 'active': [...]}: (phase, kind, bytes, base) of the systematic sweep still to use
         self.checks = []
 
     def send(self, conn, data, ending, gone, items, expect=None):
@@ -286,12 +286,9 @@ class HistGen:
             ow = r.random() < 0.15
             spec = self.g.method(ow)
             base = base_of(call_msg(ser, seq, spec, ow))
-        if self.exhaustive is not None:
-            nxt = next(self.exhaustive, None)
-        else:
-            nxt = None
-        if nxt is not None and nxt[0] == ("fresh" if fresh else "active"):
-            kind, data, base = nxt[1], nxt[2], nxt[3]
+        queue = (self.exhaustive or {}).get("fresh" if fresh else "active")
+        if queue and r.random() < 0.6:
+            _, kind, data, base = queue.pop()
         else:
             kind, data = random_mutant(r, base) if where != "during" else ("prefix", base["data"][:r.randrange(len(base["data"]))])
         bases = [base]
@@ -361,10 +358,10 @@ def sweep(rng, thorough):
             for kind, data in ms:
                 out.append((phase, kind, data, base))
     rng.shuffle(out)
-    return out
+    return {"fresh": [m for m in out if m[0] == "fresh"], "active": [m for m in out if m[0] == "active"]}
 
 
-def model_line(h):
+def model_line(h, servertype):
     """the history as a request line for drv_c05, or None if a step is not classified"""
     toks = []
     n = 0
@@ -379,4 +376,4 @@ def model_line(h):
                 toks += ["I", str(st[1]), "1" if st[4] else "0", it[-1]] + list(it[:-1])
                 n += 1
     mn = min(h["poolsize"], 2)
-    return " ".join(["loop", "t" if h["servertype"] == "thread" else "m", str(mn), str(h["poolsize"]), str(h["nconn"]), str(n)] + toks)
+    return " ".join(["loop", "t" if servertype == "thread" else "m", str(mn), str(h["poolsize"]), str(h["nconn"]), str(n)] + toks)
